@@ -164,6 +164,8 @@ def gen_case(rng, mode, d4_ok=True):
     if mode == 'link' and rng.random() < 0.12:
         a = rng.choice([0.25, 0.75, 1.25, 2.5])
         events += [{'t': a, 'ev': 'spause'}, {'t': a + rng.choice([0.5, 2, 6]), 'ev': 'sresume'}]
+        if d4_ok and rng.random() < 0.3:              # handlers are cancelled while their writes wait
+            events.append({'t': a + rng.choice([0.25, 0.4, 1.5]), 'ev': 'srvclose'})
     return {'mode': mode, 'limit0': rng.choice([None, 1, 1, 2, 2, 5]), 'calls': calls, 'events': events,
             'cut': rng.choice(['none', 'some', 'small']), 'cut_seed': rng.randrange(1 << 30)}
 
@@ -223,7 +225,7 @@ def oracle(run):
     fails, seen = [], set()
     final = run.snaps[-1][1]
     OPEN = ('o', 'r', 'l')
-    NA = {'handler_end': 'n/a', 'terminal_frame': 'n/a', 'reset_received': False}
+    NA = {'handler_end': 'n/a', 'terminal_frame': 'n/a', 'reset_received': False, 'aexit_interrupted': False}
 
     def cls_of(c):
         if run.mode != 'link' or not run.st[c].released:
@@ -235,8 +237,11 @@ def oracle(run):
         if c in snap['held'] and snap['buffered'] and snap['h2'][c][0] == 'c':
             return 'rst-held'          # client h2 closed the stream, its RST_STREAM is still in h2's send buffer
         cl = cls_of(c)
-        if cl['handler_end'] == 'BaseException' and cl['terminal_frame'] == 'none' and not cl['reset_received']:
-            return 'd4'
+        if cl['terminal_frame'] == 'none' and not cl['reset_received']:
+            if cl['handler_end'] == 'BaseException':
+                return 'd4'
+            if cl['aexit_interrupted']:
+                return 'cancelled-while-sending-terminal'
         return 'other'
 
     def involved(kind, c, snap):
@@ -255,7 +260,8 @@ def oracle(run):
         causes = sorted({cause_of(d, snap) for d in cs})
         classes = [cls_of(d) for d in cs]
         cl = classes[0] if classes and all(x == classes[0] for x in classes) else \
-            (dict(NA) if not classes else {'handler_end': 'mixed', 'terminal_frame': 'mixed', 'reset_received': False})
+            (dict(NA) if not classes else {'handler_end': 'mixed', 'terminal_frame': 'mixed', 'reset_received': False,
+                                           'aexit_interrupted': False})
         return dict(cl, kind=kind, cause=(causes[0] if len(causes) == 1 else ('n/a' if not causes else 'mixed')))
 
     for chk in run.checks:
